@@ -7,6 +7,8 @@
 (*                                                                          *)
 (*   sender goroutine (run / connect / sendUpdates)                         *)
 (*     dial       about to call connect() (also while sleeping in backoff)  *)
+(*     hs         inside connect(), s.mu HELD: dialled, own OPEN sent,      *)
+(*                waiting for the peer's OPEN (the peer may be slow)        *)
 (*     connected  connect() returned nil, sendUpdates() has not locked yet  *)
 (*     full       inside the full send, s.mu HELD, todo = routes not sent   *)
 (*     wait       inside cond.Wait, s.mu released                           *)
@@ -22,9 +24,14 @@
 (*                builds a table; may drop the connection at any moment     *)
 (*                                                                          *)
 (* s.mu is held by the sender during the whole full send and during each    *)
-(* diff round: callers, readers and the keepalive writer move only when     *)
-(* LockFree.  connect() holds s.mu from the closed test to s.conn = conn,   *)
-(* so it is one action.                                                     *)
+(* diff round, and by connect() from the closed test across the dial and    *)
+(* the whole OPEN exchange to s.conn = conn: callers, readers and the       *)
+(* keepalive writer move only when LockFree.  A Set / Close issued while    *)
+(* the lock is held BLOCKS (CallSet / CallClose: the call is pending) and   *)
+(* takes effect - and returns - only once the lock is free (RunCall);       *)
+(* everything the properties say about Close is about Close having RETURNED.*)
+(* The peer's reply to our OPEN is an environment action: it completes the  *)
+(* handshake (ConnectOK) or refuses it (ConnectRefused) whenever it likes.  *)
 (*                                                                          *)
 (* A route set ("table") is a total function Routes -> Attrs \cup {ABSENT}, *)
 (* so that attribute-only changes exist.                                    *)
@@ -53,6 +60,7 @@ VARIABLES
   advertised,     \* s.advertised
   new,            \* s.new: NoNew = nil, Pending(T) = non-nil map (T may be Empty)
   snd,            \* sender goroutine: [pc, todo, wdr]
+  call,           \* the caller's pending (blocked) call: [op |-> "none" | "set" | "close", S]
   readers,        \* connections whose consumeBGP goroutine has not finished
   wire,           \* UPDATEs of the current connection written but not yet read by the peer
   peerTable,      \* table the peer built from the stream of the current connection
@@ -63,17 +71,18 @@ VARIABLES
   cnt,            \* history: [dials, sent] attempts to connect / messages written
   act             \* history: the action just taken (role B)
 
-vars == <<closed, conn, nconn, advertised, new, snd, readers, wire, peerTable, peerAlive,
+vars == <<closed, conn, nconn, advertised, new, snd, call, readers, wire, peerTable, peerAlive,
           lastRequested, sentTable, budget, cnt, act>>
 
 Snd(pc, todo, wdr) == [pc |-> pc, todo |-> todo, wdr |-> wdr]
 At(pc) == Snd(pc, {}, {})
-LockFree == snd.pc \notin {"full", "woke", "diff"}
+LockFree == snd.pc \notin {"hs", "full", "woke", "diff"}
+NoCall == [op |-> "none", S |-> Empty]
 
 InitWith(b) ==
   /\ closed = FALSE /\ conn = 0 /\ nconn = 0
   /\ advertised = Empty /\ new = NoNew
-  /\ snd = At("dial") /\ readers = {}
+  /\ snd = At("dial") /\ readers = {} /\ call = NoCall
   /\ wire = <<>> /\ peerTable = Empty /\ peerAlive = FALSE
   /\ lastRequested = Empty /\ sentTable = Empty
   /\ budget = b /\ cnt = [dials |-> 0, sent |-> 0]
@@ -88,19 +97,44 @@ AbortEff ==
 PeerSide == <<wire, peerTable, peerAlive, sentTable>>
 
 ----------------------------------------------------------------------------
-(* callers                                                                  *)
-Set(S) ==
-  /\ LockFree /\ budget.sets > 0
-  /\ new' = Pending(S) /\ lastRequested' = S
+(* callers (one caller goroutine: at most one call in progress)             *)
+SetEff(S) == new' = Pending(S) /\ lastRequested' = S
+CloseEff == closed' = TRUE /\ AbortEff
+
+Set(S) ==                            \* the lock is free: the call runs and returns at once
+  /\ LockFree /\ call = NoCall /\ budget.sets > 0
+  /\ SetEff(S)
   /\ budget' = [budget EXCEPT !.sets = @ - 1]
   /\ act' = [a |-> "Set", S |-> S]
-  /\ UNCHANGED <<closed, conn, nconn, advertised, snd, readers, PeerSide, cnt>>
+  /\ UNCHANGED <<closed, conn, nconn, advertised, snd, call, readers, PeerSide, cnt>>
 
 Close ==
-  /\ LockFree /\ ~closed
-  /\ closed' = TRUE /\ AbortEff
+  /\ LockFree /\ call = NoCall /\ ~closed
+  /\ CloseEff
   /\ act' = [a |-> "Close"]
-  /\ UNCHANGED <<nconn, snd, readers, PeerSide, lastRequested, budget, cnt>>
+  /\ UNCHANGED <<nconn, snd, call, readers, PeerSide, lastRequested, budget, cnt>>
+
+CallSet(S) ==                        \* the lock is held: the call blocks on s.mu
+  /\ ~LockFree /\ call = NoCall /\ budget.sets > 0
+  /\ call' = [op |-> "set", S |-> S]
+  /\ budget' = [budget EXCEPT !.sets = @ - 1]
+  /\ act' = [a |-> "CallSet", S |-> S]
+  /\ UNCHANGED <<closed, conn, nconn, advertised, new, snd, readers, PeerSide, lastRequested, cnt>>
+
+CallClose ==
+  /\ ~LockFree /\ call = NoCall /\ ~closed
+  /\ call' = [op |-> "close", S |-> Empty]
+  /\ act' = [a |-> "CallClose"]
+  /\ UNCHANGED <<closed, conn, nconn, advertised, new, snd, readers, PeerSide, lastRequested, budget, cnt>>
+
+RunCall ==                           \* the blocked call gets the lock, takes effect and returns
+  /\ LockFree /\ call # NoCall
+  /\ IF call.op = "set"
+     THEN SetEff(call.S) /\ UNCHANGED <<closed, conn, advertised>>
+     ELSE CloseEff /\ UNCHANGED lastRequested
+  /\ call' = NoCall
+  /\ act' = [a |-> "RunCall", op |-> call.op]
+  /\ UNCHANGED <<nconn, snd, readers, PeerSide, budget, cnt>>
 
 ----------------------------------------------------------------------------
 (* sender: connect()                                                        *)
@@ -108,46 +142,54 @@ ConnectClosed ==                     \* connect() returns errClosed, run() retur
   /\ snd.pc = "dial" /\ closed
   /\ snd' = At("done")
   /\ act' = [a |-> "SenderExit"]
-  /\ UNCHANGED <<closed, conn, nconn, advertised, new, readers, PeerSide, lastRequested, budget, cnt>>
+  /\ UNCHANGED <<call, closed, conn, nconn, advertised, new, readers, PeerSide, lastRequested, budget, cnt>>
 
-ConnectOKWith(alive) ==              \* alive: the peer has not already dropped this connection (trace validation)
+ConnectBegin ==                      \* connect() takes s.mu, sees ~closed, dials and sends its OPEN
   /\ snd.pc = "dial" /\ ~closed
+  /\ snd' = At("hs")
+  /\ cnt' = [cnt EXCEPT !.dials = @ + 1]
+  /\ act' = [a |-> "ConnectBegin"]
+  /\ UNCHANGED <<call, closed, conn, nconn, advertised, new, readers, PeerSide, lastRequested, budget>>
+
+(* the peer's OPEN arrives (whenever the peer likes) with the expected ASN: KEEPALIVE, reader    *)
+(* started, s.conn = conn, lock released                                                        *)
+ConnectOKWith(alive) ==              \* alive: the peer has not already dropped this connection (trace validation)
+  /\ snd.pc = "hs"
   /\ nconn' = nconn + 1 /\ conn' = nconn + 1
   /\ readers' = readers \cup {nconn + 1}
   /\ snd' = At("connected")
   /\ wire' = <<>> /\ peerTable' = Empty /\ peerAlive' = alive /\ sentTable' = Empty
-  /\ cnt' = [cnt EXCEPT !.dials = @ + 1]
   /\ act' = [a |-> "ConnectOK"]
-  /\ UNCHANGED <<closed, advertised, new, lastRequested, budget>>
+  /\ UNCHANGED <<call, closed, advertised, new, lastRequested, budget, cnt>>
 ConnectOK == ConnectOKWith(TRUE)
 
-ConnectRefused ==                    \* the peer presents an unexpected ASN: conn.Close(), error, back-off
-  /\ snd.pc = "dial" /\ ~closed /\ budget.refuse > 0
+ConnectRefused ==                    \* the peer's OPEN carries an unexpected ASN: conn.Close(), error, lock released, back-off
+  /\ snd.pc = "hs" /\ budget.refuse > 0
+  /\ snd' = At("dial")
   /\ budget' = [budget EXCEPT !.refuse = @ - 1]
-  /\ cnt' = [cnt EXCEPT !.dials = @ + 1]
   /\ act' = [a |-> "ConnectRefused"]
-  /\ UNCHANGED <<closed, conn, nconn, advertised, new, snd, readers, PeerSide, lastRequested>>
+  /\ UNCHANGED <<call, closed, conn, nconn, advertised, new, readers, PeerSide, lastRequested, cnt>>
 
 (* sender: sendUpdates() takes the lock                                     *)
 EnterClosed ==
   /\ snd.pc = "connected" /\ closed
   /\ snd' = At("done")
   /\ act' = [a |-> "SenderExit"]
-  /\ UNCHANGED <<closed, conn, nconn, advertised, new, readers, PeerSide, lastRequested, budget, cnt>>
+  /\ UNCHANGED <<call, closed, conn, nconn, advertised, new, readers, PeerSide, lastRequested, budget, cnt>>
 
 EnterNoConn ==
   /\ snd.pc = "connected" /\ ~closed /\ conn = 0
   /\ snd' = At("dial")
   /\ act' = [a |-> "SenderRetry"]
-  /\ UNCHANGED <<closed, conn, nconn, advertised, new, readers, PeerSide, lastRequested, budget, cnt>>
+  /\ UNCHANGED <<call, closed, conn, nconn, advertised, new, readers, PeerSide, lastRequested, budget, cnt>>
 
 FoldAtConnect ==
   /\ snd.pc = "connected" /\ ~closed /\ conn # 0
   /\ IF new.has THEN advertised' = new.tbl /\ new' = NoNew
-     ELSE UNCHANGED <<advertised, new>>
+     ELSE UNCHANGED <<call, advertised, new>>
   /\ snd' = Snd("full", Dom(advertised'), {})
   /\ act' = [a |-> "FoldAtConnect"]
-  /\ UNCHANGED <<closed, conn, nconn, readers, PeerSide, lastRequested, budget, cnt>>
+  /\ UNCHANGED <<call, closed, conn, nconn, readers, PeerSide, lastRequested, budget, cnt>>
 
 (* one sendUpdate / sendWithdraw that succeeds: the octets are on their way  *)
 (* (if the peer has dropped the connection they are lost)                   *)
@@ -155,44 +197,44 @@ Written(m) ==
   /\ wire' = IF peerAlive THEN Append(wire, m) ELSE wire
   /\ sentTable' = Apply(sentTable, m)
   /\ cnt' = [cnt EXCEPT !.sent = @ + 1]
-  /\ UNCHANGED <<peerTable, peerAlive>>
+  /\ UNCHANGED <<call, peerTable, peerAlive>>
 
 SendUpdate(r) ==
   /\ snd.pc \in {"full", "diff"} /\ r \in snd.todo
   /\ LET T == IF snd.pc = "full" THEN advertised ELSE new.tbl IN Written(Upd(r, T[r]))
   /\ snd' = [snd EXCEPT !.todo = @ \ {r}]
   /\ act' = [a |-> "SendUpdate", r |-> r]
-  /\ UNCHANGED <<closed, conn, nconn, advertised, new, readers, lastRequested, budget>>
+  /\ UNCHANGED <<call, closed, conn, nconn, advertised, new, readers, lastRequested, budget>>
 
 FullDone ==                          \* end of the full send: first evaluation of the wait loop
   /\ snd.pc = "full" /\ snd.todo = {}
   /\ snd' = At("wait")
   /\ act' = [a |-> "WaitEnter"]
-  /\ UNCHANGED <<closed, conn, nconn, advertised, new, readers, PeerSide, lastRequested, budget, cnt>>
+  /\ UNCHANGED <<call, closed, conn, nconn, advertised, new, readers, PeerSide, lastRequested, budget, cnt>>
 
 Wake ==                              \* cond.Wait returns (Broadcast by Set / abort), lock re-acquired
   /\ snd.pc = "wait" /\ (new.has \/ conn = 0)
   /\ snd' = At("woke")
   /\ act' = [a |-> "Wake"]
-  /\ UNCHANGED <<closed, conn, nconn, advertised, new, readers, PeerSide, lastRequested, budget, cnt>>
+  /\ UNCHANGED <<call, closed, conn, nconn, advertised, new, readers, PeerSide, lastRequested, budget, cnt>>
 
 WokeClosed ==
   /\ snd.pc = "woke" /\ closed
   /\ snd' = At("done")
   /\ act' = [a |-> "SenderExit"]
-  /\ UNCHANGED <<closed, conn, nconn, advertised, new, readers, PeerSide, lastRequested, budget, cnt>>
+  /\ UNCHANGED <<call, closed, conn, nconn, advertised, new, readers, PeerSide, lastRequested, budget, cnt>>
 
 WokeNoConn ==
   /\ snd.pc = "woke" /\ ~closed /\ conn = 0
   /\ snd' = At("dial")
   /\ act' = [a |-> "SenderRetry"]
-  /\ UNCHANGED <<closed, conn, nconn, advertised, new, readers, PeerSide, lastRequested, budget, cnt>>
+  /\ UNCHANGED <<call, closed, conn, nconn, advertised, new, readers, PeerSide, lastRequested, budget, cnt>>
 
 WokeNothing ==                       \* no pending set: wait again
   /\ snd.pc = "woke" /\ ~closed /\ conn # 0 /\ ~new.has
   /\ snd' = At("wait")
   /\ act' = [a |-> "WaitEnter"]
-  /\ UNCHANGED <<closed, conn, nconn, advertised, new, readers, PeerSide, lastRequested, budget, cnt>>
+  /\ UNCHANGED <<call, closed, conn, nconn, advertised, new, readers, PeerSide, lastRequested, budget, cnt>>
 
 NeedsUpdate(adv, nw) == {r \in Dom(nw) : adv[r] # nw[r]}
 NeedsWithdraw(adv, nw) == Dom(adv) \ Dom(nw)
@@ -201,21 +243,21 @@ DiffBegin ==
   /\ snd.pc = "woke" /\ ~closed /\ conn # 0 /\ new.has
   /\ snd' = Snd("diff", NeedsUpdate(advertised, new.tbl), NeedsWithdraw(advertised, new.tbl))
   /\ act' = [a |-> "DiffBegin"]
-  /\ UNCHANGED <<closed, conn, nconn, advertised, new, readers, PeerSide, lastRequested, budget, cnt>>
+  /\ UNCHANGED <<call, closed, conn, nconn, advertised, new, readers, PeerSide, lastRequested, budget, cnt>>
 
 SendWithdraw ==
   /\ snd.pc = "diff" /\ snd.todo = {} /\ snd.wdr # {}
   /\ Written(Wdr(snd.wdr))
   /\ snd' = [snd EXCEPT !.wdr = {}]
   /\ act' = [a |-> "SendWithdraw", rs |-> snd.wdr]
-  /\ UNCHANGED <<closed, conn, nconn, advertised, new, readers, lastRequested, budget>>
+  /\ UNCHANGED <<call, closed, conn, nconn, advertised, new, readers, lastRequested, budget>>
 
 DiffDone ==                          \* s.advertised, s.new = s.new, nil; back to the wait loop
   /\ snd.pc = "diff" /\ snd.todo = {} /\ snd.wdr = {}
   /\ advertised' = new.tbl /\ new' = NoNew
   /\ snd' = At("wait")
   /\ act' = [a |-> "DiffDone"]
-  /\ UNCHANGED <<closed, conn, nconn, readers, PeerSide, lastRequested, budget, cnt>>
+  /\ UNCHANGED <<call, closed, conn, nconn, readers, PeerSide, lastRequested, budget, cnt>>
 
 WriteFails ==                        \* a write on a connection the peer has dropped may fail: abort, return true
   /\ snd.pc \in {"full", "diff"} /\ (snd.todo # {} \/ snd.wdr # {})
@@ -223,7 +265,7 @@ WriteFails ==                        \* a write on a connection the peer has dro
   /\ AbortEff
   /\ snd' = At("dial")
   /\ act' = [a |-> "WriteFails"]
-  /\ UNCHANGED <<closed, nconn, readers, PeerSide, lastRequested, budget, cnt>>
+  /\ UNCHANGED <<call, closed, nconn, readers, PeerSide, lastRequested, budget, cnt>>
 
 ----------------------------------------------------------------------------
 (* reader of connection k: its read fails once the connection is dead       *)
@@ -232,15 +274,15 @@ Dead(k) == k # conn \/ ~peerAlive
 ReaderSeesEOF(k) ==
   /\ LockFree /\ k \in readers /\ Dead(k)
   /\ readers' = readers \ {k}
-  /\ IF conn = k THEN AbortEff ELSE UNCHANGED <<conn, advertised, new>>
+  /\ IF conn = k THEN AbortEff ELSE UNCHANGED <<call, conn, advertised, new>>
   /\ act' = [a |-> "ReaderSeesEOF", k |-> k, cur |-> (conn = k)]
-  /\ UNCHANGED <<closed, nconn, snd, PeerSide, lastRequested, budget, cnt>>
+  /\ UNCHANGED <<call, closed, nconn, snd, PeerSide, lastRequested, budget, cnt>>
 
 KeepaliveFails ==
   /\ LockFree /\ ~closed /\ conn # 0 /\ ~peerAlive
   /\ AbortEff
   /\ act' = [a |-> "KeepaliveFails"]
-  /\ UNCHANGED <<closed, nconn, snd, readers, PeerSide, lastRequested, budget, cnt>>
+  /\ UNCHANGED <<call, closed, nconn, snd, readers, PeerSide, lastRequested, budget, cnt>>
 
 ----------------------------------------------------------------------------
 (* peer                                                                     *)
@@ -248,32 +290,32 @@ PeerRecv ==
   /\ peerAlive /\ wire # <<>>
   /\ peerTable' = Apply(peerTable, Head(wire)) /\ wire' = Tail(wire)
   /\ act' = [a |-> "PeerRecv"]
-  /\ UNCHANGED <<closed, conn, nconn, advertised, new, snd, readers, peerAlive, lastRequested, sentTable, budget, cnt>>
+  /\ UNCHANGED <<call, closed, conn, nconn, advertised, new, snd, readers, peerAlive, lastRequested, sentTable, budget, cnt>>
 
 PeerDrops ==
   /\ peerAlive /\ budget.drops > 0
   /\ peerAlive' = FALSE /\ wire' = <<>>
   /\ budget' = [budget EXCEPT !.drops = @ - 1]
   /\ act' = [a |-> "PeerDrops"]
-  /\ UNCHANGED <<closed, conn, nconn, advertised, new, snd, readers, peerTable, lastRequested, sentTable, cnt>>
+  /\ UNCHANGED <<call, closed, conn, nconn, advertised, new, snd, readers, peerTable, lastRequested, sentTable, cnt>>
 
 ----------------------------------------------------------------------------
 SenderStep ==
-  \/ ConnectClosed \/ ConnectOK \/ EnterClosed \/ EnterNoConn \/ FoldAtConnect
+  \/ ConnectClosed \/ ConnectBegin \/ ConnectOK \/ EnterClosed \/ EnterNoConn \/ FoldAtConnect
   \/ (\E r \in Routes : SendUpdate(r)) \/ FullDone \/ Wake \/ WokeClosed \/ WokeNoConn
   \/ WokeNothing \/ DiffBegin \/ SendWithdraw \/ DiffDone
 ReaderStep == \E k \in 1..nconn : ReaderSeesEOF(k)
 
 Next ==
-  \/ \E S \in Tables : Set(S)
-  \/ Close
+  \/ \E S \in Tables : Set(S) \/ CallSet(S)
+  \/ Close \/ CallClose \/ RunCall
   \/ SenderStep \/ ConnectRefused \/ WriteFails
   \/ ReaderStep \/ KeepaliveFails
   \/ PeerRecv \/ PeerDrops
 
 ----------------------------------------------------------------------------
 (* properties                                                               *)
-Settled == peerAlive /\ conn # 0 /\ snd.pc = "wait" /\ ~new.has /\ wire = <<>>
+Settled == peerAlive /\ conn # 0 /\ snd.pc = "wait" /\ ~new.has /\ wire = <<>> /\ call = NoCall
 
 (* the table the peer built equals the most recently requested set          *)
 Converges == Settled => peerTable = lastRequested
@@ -290,12 +332,14 @@ FullResend == (conn # 0 /\ snd.pc = "wait") => sentTable = advertised
 RefuseWrongASN ==
   [][budget'.refuse < budget.refuse => (conn' = conn /\ nconn' = nconn /\ cnt'.sent = cnt.sent /\ conn = 0)]_vars
 
-(* once Close has returned: no connection attempt, no message               *)
+(* once Close has returned: no connection attempt, no connection installed, *)
+(* no message                                                               *)
 QuietAfterClose == [][closed => (cnt' = cnt /\ nconn' = nconn /\ conn' = 0)]_vars
 
 TypeOK ==
   /\ closed \in BOOLEAN /\ conn \in 0..nconn /\ advertised \in Tables /\ new.tbl \in Tables
-  /\ snd.pc \in {"dial", "connected", "full", "wait", "woke", "diff", "done"}
+  /\ snd.pc \in {"dial", "hs", "connected", "full", "wait", "woke", "diff", "done"}
+  /\ call.op \in {"none", "set", "close"}
   /\ snd.todo \subseteq Routes /\ snd.wdr \subseteq Routes
   /\ peerTable \in Tables /\ lastRequested \in Tables
   /\ (closed => conn = 0)
